@@ -28,6 +28,8 @@ class DefaultSettings(MagicProperties):
 
     def reset(self):
         """Resets all nested properties to their hard coded default values"""
+        # properties without hard coded default value go back to their initial state
+        self.display = None
         self.update(get_defaults_dict(), _match_properties=False)
         return self
 
